@@ -160,6 +160,27 @@ fn cases(tier: &str) -> Vec<VCase> {
             }
         }
     }
+    // slots with two- and three-digit numbers (placeholder names, ordering and offsets beyond one digit)
+    for idxv in [
+        vec![Some(10)],
+        vec![None, Some(10)],
+        vec![Some(9), None, None],
+        vec![Some(15), Some(16)],
+        vec![None, Some(11), None, Some(20)],
+        vec![Some(100)],
+        vec![Some(31), None, Some(64)],
+        vec![Some(12), Some(11)],
+    ] {
+        let natural = slots(&idxv, None).map(|(_, l)| l as i128);
+        for size in [None, natural.map(|l| l + 2), natural.map(|l| l - 1), Some(128)] {
+            out.push(VCase { idx: idxv.clone(), size, sig: 0, inherit: 0, exec: false, arr: 0 });
+        }
+        if natural.is_some() && idxv.len() <= 3 {
+            for inherit in 0..3 {
+                out.push(VCase { idx: idxv.clone(), size: None, sig: idxv.len() + inherit, inherit, exec: true, arr: 0 });
+            }
+        }
+    }
     // the index next to other attributes of the same function, in every arrangement
     for arr in 1..=4u8 {
         for nf in 1..=3usize {
@@ -272,7 +293,7 @@ fn judge_exec(c: &VCase, sl: &[u64], len: u64, recs: &[Record]) -> Option<(Strin
 pub fn run(tier: &str, only: Option<&Value>) -> i32 {
     let mut rep = Report::new("C04", tier);
     let all = cases(tier);
-    rep.rule = "E1 over vftable-owning types: every assignment of {no index, #[index(0..6)]} to up to 3 functions (4 thorough; 4 over a reduced alphabet in quick) x declared table size in {none, natural, natural+2, natural-1} (contradictions must be rejected), and index patterns over {none,0,2,5} with a doc line and an explicit (default) convention on every function in four attribute arrangements (one bracket / one per attribute, index first / last); for accepted cases rustc asserts offset_of!(TVftable, v_i) == slot_i * ps and size_of::<TVftable>() == len * ps on both widths and syn counts the placeholder slots; execution part: index patterns over {none,0,2,5} for up to 3 functions (and a 4-function table) x receivers x 0..2 arguments x 4 return types, on the type itself, on a derived type inheriting the table and on a derived type extending it: two objects with two different fake tables, every wrapper executed: exactly one call, into the slot of *that* object's table, receiver = object, arguments in order, result returned. distinct = distinct (index pattern, size, signature selector, inheritance form)".into();
+    rep.rule = "E1 over vftable-owning types: every assignment of {no index, #[index(0..6)]} to up to 3 functions (4 thorough; 4 over a reduced alphabet in quick) x declared table size in {none, natural, natural+2, natural-1} (contradictions must be rejected), eight patterns with slots 9..100 and table sizes up to 128 (laid out, three of them executed), and index patterns over {none,0,2,5} with a doc line and an explicit (default) convention on every function in four attribute arrangements (one bracket / one per attribute, index first / last); for accepted cases rustc asserts offset_of!(TVftable, v_i) == slot_i * ps and size_of::<TVftable>() == len * ps on both widths and syn counts the placeholder slots; execution part: index patterns over {none,0,2,5} for up to 3 functions (and a 4-function table) x receivers x 0..2 arguments x 4 return types, on the type itself, on a derived type inheriting the table and on a derived type extending it: two objects with two different fake tables, every wrapper executed: exactly one call, into the slot of *that* object's table, receiver = object, arguments in order, result returned. distinct = distinct (index pattern, size, signature selector, inheritance form)".into();
     rep.assumptions = vec!["a first base that carries the vftable pointer sits at offset 0 (as the statement assumes)".into(), "SysV x86-64 extern \"C\" for the recording stubs".into()];
     let only_i = only.map(|l| (l["index"].as_u64().unwrap_or(0) as usize, l["ps"].as_u64().unwrap_or(8) as usize));
     let idxs: Vec<usize> = match only_i {
